@@ -396,6 +396,8 @@ func samFloat(r *rand.Rand) float64 {
 		return 0
 	case 7:
 		return 3.1415
+	case 8: // values that are exactly representable as float32 (a narrower format round-trips THEM, and only them)
+		return float64(float32([]float64{0.1, 3.1415, 1e-3, 12345.678, 2.5e10}[r.Intn(5)]))
 	default:
 		return float64(r.Intn(2000)-1000) / 16
 	}
@@ -413,6 +415,24 @@ func samLong(r *rand.Rand, n int) *sam.SAM {
 		b[i] = byte(33 + r.Intn(94))
 	}
 	s.Qual = string(b)
+	return s
+}
+
+// samExact: a record whose written line (without the terminator) is exactly n bytes long
+func samExact(r *rand.Rand, n int) *sam.SAM {
+	s := samRecord(r)
+	s.Seq, s.Qual = "", "*"
+	b := &bytes.Buffer{}
+	s.Write(b)
+	pad := n - (b.Len() - 1)
+	if pad < 0 {
+		return samLong(r, n)
+	}
+	seq := make([]byte, pad)
+	for i := range seq {
+		seq[i] = "ACGT"[r.Intn(4)]
+	}
+	s.Seq = string(seq)
 	return s
 }
 
@@ -504,6 +524,17 @@ func samDrive(args []string) error {
 			s := samRecord(r)
 			if sid%8 == 1 && i == nr/2 {
 				s = samLong(r, []int{2500, 33000, 70000}[(sid/8)%3])
+			}
+			if sid%8 == 5 && i == nr/2 { // lines of exactly a power of two bytes (one less under CRLF: the CR makes it up)
+				sizes := []int{4096, 32768, 65536}
+				if thorough() {
+					sizes = []int{4096, 8192, 32768, 65536, 131072, 262144}
+				}
+				n := sizes[(sid/8)%len(sizes)]
+				if crlf {
+					n--
+				}
+				s = samExact(r, n)
 			}
 			before := samProject(s)
 			ev := samEvent{Sid: sid, Op: "write", Mode: "write", Rec: before, Bytes: []int{}, Floats: [][]int{}, Want: []samItem{}, Items: []samItem{}, Clean: []int{}}
